@@ -45,7 +45,7 @@ claim("C06", "M", "SMT bounded model checking of MIR (z3 + cvc5 portfolio)",
       "trusted: rustc MIR dump, engine_m, z3/cvc5; shares its obligations with C07 / C08.d (same code path)")
 K = "Kani 0.68 / CBMC bounded model checking of the compiled code"
 claim("C04", "M", "SMT bounded model checking of MIR (z3 + cvc5 portfolio)",
-      "Kernel level: payment-secret metadata packing/unpacking (construct_info_bytes <-> verify) and the amount / expiry / min-final-CLTV acceptance thresholds for all u64/u32/u16 inputs and all five methods, with the cryptography abstracted (decrypt = packed bytes, HMAC/preimage checks = arbitrary booleans); user-hash boundary cases replay through the real create_from_hash + verify. Unforgeability, MPP accumulation and claiming are outside the claim.",
+      "Kernel level: payment-secret metadata packing/unpacking (construct_info_bytes <-> verify) and the amount / expiry / min-final-CLTV acceptance thresholds for all u64/u32/u16 inputs and all five methods, with the cryptography abstracted (decrypt = packed bytes, HMAC/preimage checks = arbitrary booleans); user-hash boundary cases replay through the real create_from_hash + verify. All-or-nothing claiming: claim_payment_internal (region from its entry to the start of the claim path, <= 2 parts) releases the preimage iff the parts still held add up to the recorded total; replayed on four live nodes. Unforgeability, MPP accumulation and what follows the start of the claim path are outside the claim.",
       "trusted: rustc MIR dump, engine_m, z3; crypto abstraction listed in the evidence")
 claim("C05", "M+K", "SMT bounded model checking of MIR with SHA-256 uninterpreted (z3 + cvc5); Kani/CBMC harnesses for slot arithmetic",
       "Kernel level: the counterparty-secret store. Engine M (symbolic seed, uninterpreted hash, top m commitment indices in protocol order): every honest secret is accepted, every revoked index stays recoverable and equals the seed-derived secret, a secret that does not derive the stored lower secrets is refused and the store is unchanged. Engine K: place_secret for all u64, slot masks, get_min_seen_secret. The EC check of a secret against the announced commitment point and all call-sequence rules are outside the claim.",
